@@ -1262,6 +1262,34 @@ impl<'s> Walker<'s> {
                         self.depth -= 1;
                         return;
                     }
+                    "for_each" if m.args.len() == 1
+                        && self.ov.opts.get("desugar_iter_mut_for_each").map(|v| v == "on").unwrap_or(false)
+                        && matches!(&m.args[0], Closure(c) if c.inputs.len() == 1)
+                        && matches!(&*m.receiver, MethodCall(im) if im.method == "iter_mut" && im.args.is_empty() && matches!(&*im.receiver, Path(p) if p.path.get_ident().is_some())) =>
+                    {
+                        // R18: `V.iter_mut().for_each(|P| BODY)` (closure over `&mut` items: outside R13) for a local `V`: the definitions of
+                        // `slice::IterMut` (every element once, in index order, by mutable reference) and `for_each` written out:
+                        //   { let mut verif_im_i: usize = 0; while verif_im_i < V.len() INV { let P = &mut V[verif_im_i]; BODY; verif_im_i += 1; } }
+                        if let (MethodCall(im), Closure(c)) = (&*m.receiver, &m.args[0]) {
+                            if let Path(vp) = &*im.receiver {
+                                let v = vp.path.get_ident().unwrap().to_string();
+                                self.loops += 1;
+                                let name = format!("L{}", self.loops);
+                                let inv = self.anchor_text(&format!("{}.inv", name)).unwrap_or_default();
+                                let (ps, pe) = self.src.range(c.inputs[0].span());
+                                let (bs, be) = self.src.range(c.body.span());
+                                let pat = self.src.text[ps..pe].to_string();
+                                self.replace((es, bs), &format!("{{ let mut verif_im_i: usize = 0;\n while verif_im_i < {v}.len()\n{inv}\n {{ let {pat} = &mut {v}[verif_im_i]; ", v = v, inv = inv.trim_end(), pat = pat), "R18");
+                                self.replace((be, ee), "; verif_im_i += 1; } }", "R18");
+                                self.env.push(HashMap::new());
+                                self.bind_pat(&c.inputs[0], (K::Other, K::Other));
+                                self.walk_expr(&c.body);
+                                self.env.pop();
+                                self.depth -= 1;
+                                return;
+                            }
+                        }
+                    }
                     "count" if m.args.is_empty() => {
                         // `it.count()` -> verif_count(it): the number of remaining items (R13)
                         self.open(es, "verif_count(", "R13");
